@@ -14,6 +14,7 @@ each text parsed alone) and the model is compared on every concatenated text.
 -/
 import SecsModel.Model.Parser
 import SecsModel.Proofs.ParserNat
+import SecsModel.Proofs.LexPrintedItems
 import SecsModel.Generated.Facts
 namespace Secs.C19
 open Secs Secs.Sml Secs.Lex
@@ -108,6 +109,24 @@ theorem continuation_independent (fuel : Nat) (tb : List Tok) (acc : List Msg) (
   cases parseLoop fuel { toks := tb } [] with
   | none => rfl
   | some r => simp [obs]
+
+/-- **Independence for texts in printed form.** Any number of printable messages, each printed and
+followed by any run of blanks / tabs / line breaks (or by nothing), parse to exactly these
+messages in order — the messages of the first text followed by those of the second, each equal to
+what parsing its own printed form alone gives (`C04.print_parse`). -/
+theorem printed_texts_independent (ual : List Nat) (sep : Bytes) (hsep : ∀ c ∈ sep, isBlank c = true)
+    (ms1 ms2 : List Msg) (h1 : ∀ m ∈ ms1, Printable m) (h2 : ∀ m ∈ ms2, Printable m) :
+    parse ual (printAll sep ms1 ++ printAll sep ms2) = .done (ms1.map unaddressed ++ ms2.map unaddressed) [] [] ∧
+    parse ual (printAll sep ms1) = .done (ms1.map unaddressed) [] [] ∧
+    parse ual (printAll sep ms2) = .done (ms2.map unaddressed) [] [] := by
+  refine ⟨?_, parse_printAll ual sep hsep ms1 h1, parse_printAll ual sep hsep ms2 h2⟩
+  have e : printAll sep ms1 ++ printAll sep ms2 = printAll sep (ms1 ++ ms2) := by simp [printAll]
+  rw [e, ← List.map_append]
+  exact parse_printAll ual sep hsep (ms1 ++ ms2) (by
+    intro m hm
+    rcases List.mem_append.mp hm with h | h
+    · exact h1 m h
+    · exact h2 m h)
 
 /-- tie to the source: the token channel is per call (capacity constant), no package state -/
 theorem facts_no_shared_state : Generated.pkgVars = [] ∧ Generated.tokenChanCap = 2 := by decide
